@@ -570,9 +570,9 @@ open MW.Lemmas.Deepen3 MW.Lemmas.Deepen4 in
     CreateWallet, NewAddress of any wallet but the one being restored (for which the code refuses it); inside a REMOVAL
     window: node events, iterations, crashes while no notification is pending, the drain (which provably terminates) —
     no handler step (C08 has no follower theorem for a partly deleted wallet), no unconfirmed transaction, no
-    CreateWallet / NewAddress.  STATE HYPOTHESIS (`GuardT`, for removals only): at RemoveWallet the credit bucket has one
-    entry per key and no unmined credit belongs to a transaction of the followed chain (C08's two open follower
-    invariants). -/
+    CreateWallet / NewAddress.  STATE HYPOTHESIS (`GuardT`, for removals only): at RemoveWallet no unmined credit belongs
+    to a transaction of the followed chain (C08's open follower invariant `pendOff`; its other one, one credit entry per
+    key, is carried by `JT`: `credNodup_stepT`). -/
 theorem crash_equiv_tasks {cfg : Cfg} {G : Block} (E : StaticOK cfg.st G) (hG : G.txs = []) (hb : cfg.batch > 0)
     (hl : cfg.limit > 0) (evs : List EvT) (x0 : SysQ) (k0 : SkelT) (hJ : JT cfg G x0 k0) (hR : RunOKT cfg G k0 evs)
     (hg1 : GuardT cfg true x0 evs) (hg2 : GuardT cfg false x0 evs)
